@@ -4,7 +4,9 @@ import (
 	"lunar/engine/actions"
 	"lunar/engine/config"
 	lunar_messages "lunar/engine/messages"
+	"lunar/engine/metrics"
 	"lunar/engine/streams"
+	"net/http"
 
 	"github.com/negasus/haproxy-spoe-go/action"
 )
@@ -26,3 +28,30 @@ func VerifFlowsEndpointsRequest(stream *streams.Stream) *config.HAProxyEndpoints
 	rd.stream = stream
 	return rd.buildHAProxyFlowsEndpointsRequest()
 }
+
+// VerifNewHandlingDataManager builds a flows-mode manager the way Setup() does, without the
+// doctor / OpenTelemetry exporters / syslog writer (additive constructor shim for C08).
+func VerifNewHandlingDataManager() (*HandlingDataManager, error) {
+	rd := &HandlingDataManager{isStreamsEnabled: true}
+	if err := rd.initializeStreams(); err != nil {
+		return nil, err
+	}
+	mm, err := metrics.NewMetricManager()
+	if err != nil {
+		return nil, err
+	}
+	rd.metricManager = mm
+	rd.metricManager.UpdateMetricsForFlow(rd.stream)
+	return rd, nil
+}
+
+func (rd *HandlingDataManager) VerifHandleConfiguration() func(http.ResponseWriter, *http.Request) {
+	return rd.handleConfiguration()
+}
+
+func (rd *HandlingDataManager) VerifHandleApplyFlows() func(http.ResponseWriter, *http.Request) {
+	return rd.handleApplyFlows()
+}
+
+// VerifStream returns the engine transactions are currently served by (what processRequest reads).
+func (rd *HandlingDataManager) VerifStream() *streams.Stream { return rd.stream }
